@@ -27,17 +27,14 @@ func (c07) Assumptions() []string {
 func (c07) Gen(tier string, seed int64) []fw.Unit {
 	var us []fw.Unit
 	for fam := int64(0); fam < 2; fam++ {
-		for cs := int64(0); cs < 2; cs++ {
-			for full := int64(0); full < 2; full++ {
-				// exhaustive short strings: first character range split for sharding
-				for lo := int64(0); lo < 128; lo += 16 {
-					us = append(us, fw.U("c3993.exh", nil, "exhaustive<=2", fam, cs, full, lo, lo+16))
-				}
-				if tier == "thorough" {
-					for a := int64(0); a < 43; a++ {
-						us = append(us, fw.U("c3993.exh3", nil, "exhaustive3", fam, cs, full, a))
-					}
-				}
+		// exhaustive short strings; every text is run through all four option mixes in
+		// the same process (alternating order), so option-dependent state shows
+		for lo := int64(0); lo < 128; lo += 4 {
+			us = append(us, fw.U("c3993.exh", nil, "exhaustive<=2", fam, lo, lo+4))
+		}
+		if tier == "thorough" {
+			for a := int64(0); a < 43; a++ {
+				us = append(us, fw.U("c3993.exh3", nil, "exhaustive3", fam, a))
 			}
 		}
 	}
@@ -50,6 +47,17 @@ func (c07) Gen(tier string, seed int64) []fw.Unit {
 		us = append(us, fw.U("c3993.random", nil, "random", r.Int63(), 400))
 	}
 	return us
+}
+
+// c3993AllMixes runs one text through the four option mixes of a symbology.
+func c3993AllMixes(c *fw.Ctx, fam, s string, flip bool) {
+	order := [][2]bool{{false, false}, {false, true}, {true, false}, {true, true}}
+	if flip {
+		order = [][2]bool{{true, true}, {false, true}, {true, false}, {false, false}}
+	}
+	for _, o := range order {
+		c3993Check(c, fam, s, o[0], o[1])
+	}
 }
 
 func c3993Check(c *fw.Ctx, fam string, s string, cs, full bool) {
@@ -72,6 +80,7 @@ func c3993Check(c *fw.Ctx, fam string, s string, cs, full bool) {
 	if fam == "code93" && !full && strings.ContainsAny(s, "ñòóô") {
 		return // don't-care
 	}
+	retainObserve(c, fam, o.bc, inner, 3)
 	bits, err := row1D(o.bc)
 	if err != nil {
 		c.Violation(fam+"/image", err.Error(), inner, "")
@@ -136,27 +145,25 @@ func (p c07) Exec(c *fw.Ctx, u *fw.Unit) {
 		if u.Int(0) == 1 {
 			fam = "code93"
 		}
-		cs, full := u.Int(1) == 1, u.Int(2) == 1
-		lo, hi := int(u.Int(3)), int(u.Int(4))
+		lo, hi := int(u.Int(1)), int(u.Int(2))
 		if lo == 0 {
-			c3993Check(c, fam, "", cs, full)
+			c3993AllMixes(c, fam, "", false)
 		}
 		for a := lo; a < hi; a++ {
-			c3993Check(c, fam, string([]byte{byte(a)}), cs, full)
+			c3993AllMixes(c, fam, string([]byte{byte(a)}), a%2 == 1)
 			for b := 0; b < 128; b++ {
-				c3993Check(c, fam, string([]byte{byte(a), byte(b)}), cs, full)
+				c3993AllMixes(c, fam, string([]byte{byte(a), byte(b)}), (a+b)%2 == 1)
 			}
 		}
-		c.Cover("exhaustive_len<=2_ascii", fmt.Sprintf("%s cs=%v full=%v", fam, cs, full))
+		c.Cover("exhaustive_len<=2_ascii", fam)
 	case "c3993.exh3":
 		if u.Int(0) == 1 {
 			fam = "code93"
 		}
-		cs, full := u.Int(1) == 1, u.Int(2) == 1
-		a := refC39[u.Int(3)]
+		a := refC39[u.Int(1)]
 		for i := 0; i < 43; i++ {
 			for j := 0; j < 43; j++ {
-				c3993Check(c, fam, string([]byte{a, refC39[i], refC39[j]}), cs, full)
+				c3993AllMixes(c, fam, string([]byte{a, refC39[i], refC39[j]}), (i+j)%2 == 1)
 			}
 		}
 	case "c3993.random":
@@ -173,7 +180,11 @@ func (p c07) Exec(c *fw.Ctx, u *fw.Unit) {
 				ab = asciiAB
 			}
 			n := r.Intn(61)
-			c3993Check(c, fam, string(randBytes(r, n, ab)), r.Intn(2) == 1, full)
+			txt := string(randBytes(r, n, ab))
+			c3993Check(c, fam, txt, r.Intn(2) == 1, full)
+			if i%4 == 0 {
+				c3993AllMixes(c, fam, txt, r.Intn(2) == 1)
+			}
 		}
 	}
 }
